@@ -42,6 +42,40 @@ Fixpoint copy_loop (fuel : nat) (m : nat) (src : list str) : option str :=
 
 Definition src_measure (src : list str) : nat := length (concat src) + length src.
 
+(* The read step in general: a Read may return bytes TOGETHER with an error (io.Reader allows
+   n > 0 with err != nil; crypto/tls connections do it when the last record and close_notify
+   arrive together).  [fin] = 0: the source reports io.EOF in a Read of its own; [fin] = k > 0:
+   the Read that returns the source's last bytes also returns error k (1 = io.EOF, other = a
+   non-EOF error), and so does every later Read.  Status 0 = nil. *)
+Definition all_empty (src : list str) : bool :=
+  forallb (fun s => match s with [] => true | _ => false end) src.
+Definition src_read_st (fin : N) (m : nat) (src : list str) : str * list str * N :=
+  let '(d, s', eof) := src_read m src in
+  if eof then ([], s', if fin =? 0 then 1 else fin)
+  else if negb (fin =? 0) && all_empty s' then (d, s', fin)
+  else (d, s', 0).
+
+(* copy_buffer.go:14-37 in this generality: the chunk is written FIRST (nr > 0), THEN the
+   status is acted upon (er != nil: break) - bytes that arrive together with an error are
+   delivered *)
+Fixpoint copy_loop_st (fuel : nat) (m : nat) (fin : N) (src : list str) : option str :=
+  match fuel with
+  | O => None
+  | S f =>
+      let '(d, src', st) := src_read_st fin m src in
+      if negb (st =? 0) then Some d
+      else match copy_loop_st f m fin src' with
+           | Some r => Some (d ++ r)
+           | None => None
+           end
+  end.
+
+Definition copy_buffer_st (fin : N) (src : list str) : outcome str :=
+  match copy_loop_st (S (src_measure src)) copy_buf_size fin src with
+  | Some s => Ok s
+  | None => Err 77
+  end.
+
 (* what the destination has received when the source is exhausted; [Err 77] = fuel
    (excluded by Proofs.Tunnel.copy_preserves_stream) *)
 Definition copy_buffer (src : list str) : outcome str :=
@@ -65,8 +99,11 @@ Inductive kind := KTcp | KSni | KDyn | KWs.
 (* sni_proxy.go:45-130: the handshake through the bufio.Reader.  Result: what has been
    written to the upstream connection (PROXY header, then out.Write(data)) and the reader
    as it stands afterwards.  [None]: no upstream connection is made (handshake rejected). *)
+(* len(b.buf) of bufio.NewReader: 4096 *)
+Definition sni_buf_size : nat := N.to_nat 4096.
+
 Definition sni_handshake (line : str) (segs : list str) : outcome (option (str * breader)) :=
-  let b0 := new_reader 4096 segs in                          (* bufio.NewReader(in) *)
+  let b0 := new_reader sni_buf_size segs in                          (* bufio.NewReader(in) *)
   do '(hdr, e1, b1) <- peek b0 9;                            (* tlsReader.Peek(9) *)
   if negb (e1 =? 0) then Ok None else
   match client_hello_buffer_size hdr with
@@ -129,6 +166,19 @@ Definition upstream_stream (k : kind) (pp : bool) (line : str) (segs : list str)
   | _ =>
       let st := tunnel_setup k pp line segs in
       do c <- copy_buffer (s_src st); Ok (Some (s_pre st ++ c))
+  end.
+
+(* the same with the client's final Read carrying its bytes together with error [fin].
+   tcp / tcp-dynamic: the raw copy loop in its general form.  tcp+sni: the flag does not enter
+   the bufio.Reader model (partial: bufio keeps such bytes and defers the error, the direct
+   read passes both on; only the correspondence run ties that to the real bufio) - the model
+   predicts the same stream. *)
+Definition upstream_stream_f (k : kind) (pp : bool) (line : str) (segs : list str) (fin : N) : outcome (option str) :=
+  match k with
+  | KSni => upstream_stream k pp line segs
+  | _ =>
+      let st := tunnel_setup k pp line segs in
+      do c <- copy_buffer_st fin (s_src st); Ok (Some (s_pre st ++ c))
   end.
 
 (* ---------- the unrepaired tcp+sni copier (before fix commit c17abb6) ----------
@@ -246,7 +296,7 @@ Definition tunnel_expect (up reply : str) (cwait : bool) (ce : cend) (ut : utrig
 Definition no_tunnel : expectation :=
   {| e_conn := false; e_up := []; e_up_lo := 0; e_cl := []; e_cl_lo := 0; e_cl_hi := 0 |}.
 
-Definition scenario_expect (k : kind) (pp : bool) (line : str) (segs : list str)
+Definition scenario_expect (k : kind) (pp : bool) (line : str) (segs : list str) (fin : N)
     (cwait : bool) (ce : cend) (ut : utrig) (reply : str) (rseg1 whead : N) (ue : uend) : outcome expectation :=
   match k with
   | KWs =>
@@ -264,7 +314,7 @@ Definition scenario_expect (k : kind) (pp : bool) (line : str) (segs : list str)
         let f := ws_first_chunk seg1 in
         Ok {| e_conn := true; e_up := []; e_up_lo := 0; e_cl := f; e_cl_lo := nlen' f; e_cl_hi := nlen' f |}
   | _ =>
-      do u <- upstream_stream k pp line segs;
+      do u <- upstream_stream_f k pp line segs fin;
       match u with
       | None => Ok no_tunnel
       | Some up => Ok (tunnel_expect up reply cwait ce ut ue)
